@@ -436,6 +436,8 @@ void gen_lp_family(Tape &t, const GenOpts &o, int family, GenLP &out) {
     m.objsense = cover ? 1 : -1;
     int n = 2 + (int)t.below((uint32_t)std::max(1, std::min(o.maxn, 9) - 1));
     int mm = 1 + (int)t.below((uint32_t)std::max(1, std::min(o.maxm, 4)));
+    if (o.minm > mm) mm = o.minm + (int)t.below((uint32_t)std::max(1, o.maxm - o.minm + 1));
+    if (o.minn > n) n = o.minn + (int)t.below((uint32_t)std::max(1, o.maxn - o.minn + 1));
     for (int j = 0; j < n; j++) {
       Col c;
       c.lo = 0;
